@@ -1,4 +1,4 @@
-import PsecModel.Props.C03
+import PsecModel.Lemmas.Binding
 import PsecModel.Props.C02
 /-!
 # The specification's parser and verifier accept what psec's `wrap` emits (towards `wrap_is_spec_valid`)
@@ -160,5 +160,38 @@ theorem a2bHex_toHexU : ∀ b : Bytes, a2bHex (toHexU b) = some b
     simp only [mkByte]
     have : x.toNat / 16 * 16 + x.toNat % 16 = x.toNat := by omega
     rw [this]; simp
+
+
+theorem len1 {α : Type} (s : List α) (h : s.length = 1) : ∃ a, s = [a] := by
+  match s, h with
+  | [a], _ => exact ⟨a, rfl⟩
+
+/-- the sixteen fixed characters of an assembled header, explicitly -/
+theorem assemble_explicit (h : Header) (hw : h.WF) (L n : Nat) (hL : L ≤ 9999) (hn : n ≤ 99) (blocks : PyStr) :
+    ∃ v k0 k1 a0 m0 v0 v1 x0 r0 r1, h.versionId = [v] ∧ (v = 65 ∨ v = 66 ∨ v = 67 ∨ v = 68) ∧ h.keyUsage = [k0, k1] ∧
+      h.algorithm = [a0] ∧ h.modeOfUse = [m0] ∧ h.versionNum = [v0, v1] ∧ h.exportability = [x0] ∧ h.reserved = [r0, r1] ∧
+      h.assemble L n blocks = v :: (dec4s L ++ ([k0, k1, a0, m0, v0, v1, x0] ++ (dec2s n ++ (r0 :: r1 :: blocks)))) ∧
+      ([v, k0, k1, a0, m0, v0, v1, x0, r0, r1] : PyStr).all isAlnumC = true := by
+  obtain ⟨v, hv, hvc⟩ : ∃ v, h.versionId = [v] ∧ (v = 65 ∨ v = 66 ∨ v = 67 ∨ v = 68) := by
+    rcases versionOk_cases _ hw.ver with e | e | e | e
+    · exact ⟨65, e, Or.inl rfl⟩
+    · exact ⟨66, e, Or.inr (Or.inl rfl)⟩
+    · exact ⟨67, e, Or.inr (Or.inr (Or.inl rfl))⟩
+    · exact ⟨68, e, Or.inr (Or.inr (Or.inr rfl))⟩
+  obtain ⟨k0, k1, hku⟩ := len2 _ hw.ku.1
+  obtain ⟨a0, halg⟩ := len1 _ hw.alg.1
+  obtain ⟨m0, hmou⟩ := len1 _ hw.mou.1
+  obtain ⟨v0, v1, hvn⟩ := len2 _ hw.vn.1
+  obtain ⟨x0, hex⟩ := len1 _ hw.ex.1
+  obtain ⟨r0, r1, hres⟩ := len2 _ hw.res.1
+  refine ⟨v, k0, k1, a0, m0, v0, v1, x0, r0, r1, hv, hvc, hku, halg, hmou, hvn, hex, hres, ?_, ?_⟩
+  · unfold Header.assemble
+    rw [zfill4_eq _ hL, zfill2_eq _ hn, hv, hku, halg, hmou, hvn, hex, hres]
+    simp
+  · have h1 := hw.ku.2; have h2 := hw.alg.2; have h3 := hw.mou.2; have h4 := hw.vn.2; have h5 := hw.ex.2; have h6 := hw.res.2
+    rw [hku] at h1; rw [halg] at h2; rw [hmou] at h3; rw [hvn] at h4; rw [hex] at h5; rw [hres] at h6
+    simp only [asciiAlnum, List.all_cons, List.all_nil, Bool.and_true, Bool.and_eq_true] at h1 h2 h3 h4 h5 h6 ⊢
+    have hva : isAlnumC v = true := by rcases hvc with e | e | e | e <;> subst e <;> decide
+    exact ⟨hva, h1.1, h1.2, h2, h3, h4.1, h4.2, h5, h6.1, h6.2⟩
 
 end Psec.Tr31
